@@ -19,9 +19,9 @@ import (
 // SrvCfg is an upgrader configuration (each dimension: variant 0 = nil / not configured).
 var SrvFields = []Field{
 	{"proto", []string{"nil", "all", "b", "none", "custom-all", "custom-b", "sel-equal-b", "sel-slice-b", "sel-bigslice-b"}},
-	{"ext", []string{"nil", "all", "none", "custom-all", "negotiate-echo", "negotiate-decline", "negotiate-error", "negotiate-pmd", "negotiate-error-x", "negotiate-error-y", "custom-alias"}},
+	{"ext", []string{"nil", "all", "none", "custom-all", "negotiate-echo", "negotiate-decline", "negotiate-error", "negotiate-pmd", "negotiate-error-x", "negotiate-error-y", "custom-alias", "negotiate-redirect"}},
 	{"header", []string{"nil", "one", "bytes", "http", "func-long", "func-long-fails"}},
-	{"onrequest", []string{"nil", "ok", "err", "reject403", "err-list", "err-bytes", "reject403-live"}},
+	{"onrequest", []string{"nil", "ok", "err", "reject403", "err-list", "err-bytes", "reject403-live", "redirect307"}},
 	{"onhost", []string{"nil", "ok", "err", "reject403", "err-list", "err-bytes"}},
 	{"onheader", []string{"nil", "ok", "err", "reject403", "err-list", "err-bytes"}},
 	{"onbefore", []string{"nil", "ok", "err", "reject403", "ok-header", "err-list", "err-bytes", "reject403-live"}},
@@ -68,8 +68,17 @@ func cbErr(kind string) error {
 		return ErrList{"first problem", "second problem"}
 	case "err-bytes":
 		return ErrBytes
+	case "redirect307":
+		return RedirectErr()
 	}
 	return nil
+}
+
+// RedirectErr refuses the handshake with a status below 400: a redirect (RFC 6455 4.1 lets a
+// server answer with one), Location in the extra headers.
+func RedirectErr() error {
+	return ws.RejectConnectionError(ws.RejectionStatus(307), ws.RejectionReason("moved for the moment"),
+		ws.RejectionHeader(ws.HandshakeHeaderString("Location: wss://elsewhere.example/chat\r\n")))
 }
 
 // ErrBytes is an error whose text echoes bytes received from the peer: not valid UTF-8 in places,
@@ -146,6 +155,8 @@ func (c SrvCfg) Upgrader() ws.Upgrader {
 		u.Negotiate = func(o httphead.Option) (httphead.Option, error) { return o.Clone(), nil }
 	case "negotiate-decline":
 		u.Negotiate = func(o httphead.Option) (httphead.Option, error) { return httphead.Option{}, nil }
+	case "negotiate-redirect":
+		u.Negotiate = func(o httphead.Option) (httphead.Option, error) { return httphead.Option{}, RedirectErr() }
 	case "negotiate-error":
 		u.Negotiate = func(o httphead.Option) (httphead.Option, error) { return httphead.Option{}, ErrCallback }
 	case "negotiate-pmd":
@@ -238,6 +249,8 @@ func (c SrvCfg) HTTPUpgrader() (u ws.HTTPUpgrader, ok bool) {
 		u.Negotiate = func(o httphead.Option) (httphead.Option, error) { return o.Clone(), nil }
 	case "negotiate-decline":
 		u.Negotiate = func(o httphead.Option) (httphead.Option, error) { return httphead.Option{}, nil }
+	case "negotiate-redirect":
+		u.Negotiate = func(o httphead.Option) (httphead.Option, error) { return httphead.Option{}, RedirectErr() }
 	case "negotiate-error":
 		u.Negotiate = func(o httphead.Option) (httphead.Option, error) { return httphead.Option{}, ErrCallback }
 	case "negotiate-pmd":
@@ -288,6 +301,8 @@ func (c SrvCfg) Expect(r Req) SrvExpect {
 			e.CallbackStatuses[500] = true
 		case "reject403", "reject403-live":
 			e.CallbackStatuses[403] = true
+		case "redirect307":
+			e.CallbackStatuses[307] = true
 		}
 	}
 	status(c.V("onrequest"))
@@ -299,6 +314,12 @@ func (c SrvCfg) Expect(r Req) SrvExpect {
 		status(c.V("onheader"))
 	}
 	status(c.V("onbefore"))
+	if c.V("ext") == "negotiate-redirect" && r.V("extensions") != "absent" {
+		e.CallbackStatuses[307] = true
+		if r.V("extensions") == "malformed" {
+			e.CallbackStatuses[400] = true
+		}
+	}
 	if c.V("ext") == "negotiate-error" && r.V("extensions") != "absent" {
 		e.CallbackStatuses[500] = true
 		if r.V("extensions") == "malformed" {
@@ -591,6 +612,11 @@ func JudgeServer(r Req, c SrvCfg, out []byte, hsk ws.Handshake, err error, flavo
 	if st == 426 && c.V("header") != "func-long-fails" {
 		if g := h.Get("Sec-WebSocket-Version"); len(g) != 1 || g[0] != "13" {
 			return "426-without-version-header:" + cls, fmt.Sprintf("%v", g)
+		}
+	}
+	if st == 307 && c.V("header") != "func-long-fails" {
+		if g := h.Get("Location"); len(g) != 1 || g[0] != "wss://elsewhere.example/chat" {
+			return "redirect-header-missing:" + cls, fmt.Sprintf("%v", g)
 		}
 	}
 	if st == 403 && c.V("header") != "func-long-fails" {
